@@ -38,7 +38,10 @@ func symMakeSize(ln, cp value) (int, int) {
 		if l < 0 || l > c {
 			panic("runtime error: makeslice: len out of range")
 		}
-		if c > 1<<28 {
+		if c > 1<<22 {
+			if eng != nil && eng.measuring {
+				panic(allocCut{size: int(c)})
+			}
 			panic(pathTruncated{fmt.Sprintf("make of %d elements exceeds the engine's allocation cap", c)})
 		}
 		return int(l), int(c)
@@ -47,6 +50,12 @@ func symMakeSize(ln, cp value) (int, int) {
 	ok := tAnd(tOp("bvsle", 0, 0, bvConst(0, 64), lt), tOp("bvsle", 0, 0, lt, ct))
 	if !eng.decide(ok) {
 		panic("runtime error: makeslice: len out of range")
+	}
+	if eng.measuring {
+		// symbolic size inside vMeasureAlloc: the allocation is not materialised;
+		// the size term goes to the harness, which asserts its bound over every
+		// value on this path.
+		panic(allocCut{size: sym{types.Int, ct}})
 	}
 	// the size is about to be concretised: refuse unboundedly many values
 	if !eng.decide(tOp("bvsle", 0, 0, ct, bvConst(1<<16, 64))) {
@@ -233,3 +242,7 @@ func (e *Engine) checkBudget() {
 }
 
 type budgetExceeded struct{}
+
+// allocCut ends the closure run by vMeasureAlloc at an allocation that is too
+// large to materialise; size is the requested element count (int or sym).
+type allocCut struct{ size value }
